@@ -5,6 +5,7 @@ mod util;
 mod c17;
 mod dictgen;
 mod tok;
+mod c06;
 
 fn main() {
     // silence panic messages of caught panics
@@ -21,6 +22,7 @@ fn main() {
     let corpus = args.get(5).map(|s| s.as_str());
     let r = match prop {
         "C17" => c17::run(seed, n, outdir, corpus),
+        "C06" => c06::run(seed, n, outdir, corpus),
         "TOK" | "C01" | "C02" | "C03" | "C04" | "C08" | "C12" | "C13" => tok::run(prop, seed, n, outdir, corpus),
         _ => {
             eprintln!("unknown property {}", prop);
